@@ -17,6 +17,8 @@ pub const ENUM_VALUES: &[&str] = &["available", "pending", "sold", "A", "b", "in
 pub const DESCS: &[&str] = &[
     "A simple description.", "  padded  ", "line one\nline two", "with \"quotes\" and \\backslash\\", "ends with */ comment", "{braces} and {}", "\n\nblank lines around\n\n",
     "crlf\r\nline", "caf\u{e9} \u{1F600} unicode", "", "See <https://example.com>.", "tab\there", "`code` and *emphasis*",
+    "\"active\" while listed, otherwise \"archived\"", "'single' quoted 'ends'", "/// looks like a doc comment", "#[attr] and #![inner]", "trailing backslash \\",
+    "/* block */ comment", "r#\"raw\"#", "\u{a0}non-breaking space around\u{a0}", "  \t mixed whitespace \n ",
 ];
 
 #[derive(Clone, Debug, Default)]
@@ -339,8 +341,31 @@ impl<'a> SpecGen<'a> {
             let n_ops = self.rng.range(1, 3);
             let mut chosen: Vec<&str> = vec![];
             for _ in 0..n_ops { let v = *self.rng.pick(&verbs); if !chosen.contains(&v) { chosen.push(v); } }
+            // sometimes a shared (path-item level) non-path parameter that an operation re-declares differently
+            let mut redeclare: Option<(String, bool)> = None;
+            if self.rng.chance(1, 5) {
+                let n = self.prop_names(1).pop().unwrap_or_else(|| "trace".into());
+                if !pps.contains(&n) {
+                    let req = self.rng.chance(1, 2);
+                    let p = self.param(&n, "query", req);
+                    item.entry("parameters").or_insert_with(|| json!([])).as_array_mut().unwrap().push(p);
+                    redeclare = Some((n, req));
+                    self.feat("path_item_shared_query_parameter");
+                }
+            }
             for v in chosen {
-                let op = self.operation(v, tpl, op_idx, &pps, &shared);
+                let mut op = self.operation(v, tpl, op_idx, &pps, &shared);
+                if let Some((n, req)) = &redeclare {
+                    if self.rng.chance(1, 2) {
+                        // the operation's own declaration wins (OpenAPI): same name and location, opposite requiredness
+                        let ps = op.as_object_mut().unwrap().entry("parameters").or_insert_with(|| json!([])).as_array_mut().unwrap();
+                        ps.retain(|p| p["name"] != json!(n));
+                        ps.push(json!({"name": n, "in": "query", "required": !req, "schema": {"type": "integer"}}));
+                        self.feat("operation_overrides_path_item_parameter");
+                        // keep body members clear of the name
+                        if let Some(props) = op.pointer_mut("/requestBody/content/application~1json/schema/properties").and_then(|p| p.as_object_mut()) { props.remove(n); }
+                    }
+                }
                 op_idx += 1;
                 item.insert(v.into(), op);
             }
@@ -372,6 +397,11 @@ impl<'a> SpecGen<'a> {
                     ("basicAuth", json!({"type": "http", "scheme": "basic"})),
                     ("oauth", json!({"type": "oauth2", "flows": {"authorizationCode": {"authorizationUrl": "https://auth.example.com/authorize", "tokenUrl": "https://auth.example.com/token", "scopes": {"read": "Read", "write": "Write"}}}})),
                     ("key2Fa", json!({"type": "apiKey", "in": "header", "name": "x-2fa-token"})),
+                    ("queryBearer", json!({"type": "apiKey", "in": "query", "name": "bearer"})),
+                    ("cookieBearer", json!({"type": "apiKey", "in": "cookie", "name": "bearerAuth"})),
+                    ("headerBearerAuth", json!({"type": "apiKey", "in": "header", "name": "bearer-auth"})),
+                    ("digestAuth", json!({"type": "http", "scheme": "digest"})),
+                    ("BasicUpper", json!({"type": "http", "scheme": "Basic"})),
                 ];
                 let mut schemes = Map::new();
                 let mut reqs = vec![];
